@@ -75,11 +75,12 @@ func Scratch(prefix string) string {
 }
 
 // PlainEncryptor is a trivial e2wtypes.Encryptor: the encryptor is not under test and keystore-v4 costs 77 ms per call.
+// It reports the name and version of keystore-v4 because the distributed wallet refuses to read back anything else.
 type PlainEncryptor struct{}
 
-func (PlainEncryptor) Name() string   { return "plain" }
-func (PlainEncryptor) Version() uint  { return 1 }
-func (PlainEncryptor) String() string { return "plainv1" }
+func (PlainEncryptor) Name() string   { return "keystore" }
+func (PlainEncryptor) Version() uint  { return 4 }
+func (PlainEncryptor) String() string { return "keystorev4" }
 func (PlainEncryptor) Encrypt(data []byte, key string) (map[string]any, error) {
 	return map[string]any{"data": hex.EncodeToString(data), "key": hex.EncodeToString([]byte(key))}, nil
 }
@@ -249,6 +250,8 @@ type SignerOpts struct {
 	Full bool
 	// DistWallets are created as distributed wallets.
 	DistWallets []string
+	// Populate is called after the wallets were created and before the account cache is built.
+	Populate func(ctx context.Context, store e2wtypes.Store, enc e2wtypes.Encryptor) error
 }
 
 // SignerRig is a full real signing stack.
@@ -304,6 +307,11 @@ func NewSignerRig(o SignerOpts) (*SignerRig, error) {
 	}
 	for _, w := range o.DistWallets {
 		if _, err := distributed.CreateWallet(r.Ctx, w, r.WStore, enc); err != nil {
+			return nil, err
+		}
+	}
+	if o.Populate != nil {
+		if err := o.Populate(r.Ctx, r.WStore, enc); err != nil {
 			return nil, err
 		}
 	}
